@@ -259,13 +259,12 @@ static int hb_push_ref(enum pq_mode m, struct aws_priority_queue *q) {
     uint8_t in[ISZ]; size_t h = nondet_size_t(); int r;
     PQ_GHOSTS(); pq_build(q, m);
     struct aws_priority_queue_node *bp = h < PQK ? &g_nodes[h] : NULL;
-#if defined(VERIF_PQ_NO_HANDLES)
+#if defined(VERIF_PQ_NO_HANDLES) && defined(VERIF_PQ_STATIC_HANDLE_ONLY)
+    __CPROVER_assume(bp != NULL && q->container.alloc == NULL); /* 136-byte unit: only the refusal of a handle by a static queue (no handle: see push_*) */
+#elif defined(VERIF_PQ_NO_HANDLES)
     __CPROVER_assume(bp == NULL || q->container.alloc == NULL); /* the handle array stays absent: no handle, or a static queue (refused) */
 #elif defined(VERIF_PQ_HANDLES_APPEAR)
     __CPROVER_assume(bp != NULL && q->container.alloc != NULL); /* the call creates the handle array */
-#endif
-#ifdef VERIF_PQ_NO_GROWTH /* 136-byte units that do not fit into memory otherwise: the element storage does not have to grow */
-    __CPROVER_assume(!(q->container.alloc != NULL && PQ_FULL(q)));
 #endif
     PQ_C_push(PQ_ASSUME, PQ_SKIP, q, in, bp, r)
     r = aws_priority_queue_push_ref(q, in, bp);
@@ -281,8 +280,10 @@ void h_push_ref_live(void) { Q; int r = hb_push_ref(PQ_LIVE, &q);
 /* queue without handle array: (a) no handle / static queue: stays without (VERIF_PQ_NO_HANDLES); (b) first handle on a
  * dynamic queue: the array is created (VERIF_PQ_HANDLES_APPEAR) */
 void h_push_ref_plain(void) { Q; int r = hb_push_ref(PQ_PLAIN, &q);
-    if (r == 0) { if (PQ_FULL0) CANARY("no handle, storage grew"); else CANARY("no handle"); }
-    else if (PQ_FULL0) CANARY("full static queue refused"); else CANARY("static queue refused a handle"); }
+#ifndef VERIF_PQ_STATIC_HANDLE_ONLY
+    if (r == 0) { if (PQ_FULL0) CANARY("no handle, storage grew"); else CANARY("no handle"); } else
+#endif
+    if (r != 0) { if (PQ_FULL0) CANARY("full static queue refused"); else CANARY("static queue refused a handle"); } }
 void h_push_ref_nost(void) { Q; int r = hb_push_ref(PQ_NOST, &q); if (r == 0) CANARY("first element"); }
 void h_push_ref_first_plain(void) { Q; int r = hb_push_ref(PQ_PLAIN, &q);
     if (r == 0) { if (g0_len > 1 && g_ki < g0_len) CANARY("first handle arrives in a queue that holds elements"); else if (g0_len == 0) CANARY("first handle, empty queue");
